@@ -123,14 +123,17 @@ func (p *Processor) Run(ctx context.Context) error {
 					continue
 				}
 
+				// A segment that cannot be delivered ends this pass: going on to the
+				// next one would commit an offset past records that were never
+				// written, and the offset filter would then drop them for good.
 				state, err := p.store.LoadOffset(ctx, seg.Topic, seg.Partition)
 				if err != nil {
-					continue
+					break
 				}
 
 				records, err := p.decode.Decode(ctx, seg.SegmentKey, seg.IndexKey, seg.Topic, seg.Partition)
 				if err != nil {
-					continue
+					break
 				}
 				if len(records) == 0 {
 					continue
@@ -148,7 +151,7 @@ func (p *Processor) Run(ctx context.Context) error {
 				err = p.sink.Write(ctx, mapped)
 				unlock()
 				if err != nil {
-					continue
+					break
 				}
 
 				last := mapped[len(mapped)-1]
